@@ -44,6 +44,14 @@ def expected_deliveries(bench, via, filters, mid, connected=None, at=None):
     return out
 
 
+def qualified_name(bench, i):
+    m = bench["models"][i]
+    nm = m["name"] if m["name"] else "<unknown>"
+    if m.get("parent") is None:
+        return m["name"]
+    return qualified_name(bench, m["parent"]) + "." + nm
+
+
 def judge(bench, log, acyclic=True):
     """-> list of (label, ok: bool, detail).  Labels are prefixed with the property they belong to."""
     res = []
@@ -67,7 +75,7 @@ def judge(bench, log, acyclic=True):
         elif k == "filter":
             filters[(e[1], e[2])] = e[3]
         elif k == "init":
-            inits.append((e[1], e[2], idx))
+            inits.append((e[1], e[2], idx, e[3] if len(e) > 3 else None))
         elif k == "cmd-begin":
             cur = [e[1], idx, None, None]
         elif k == "cmd-end":
@@ -80,6 +88,9 @@ def judge(bench, log, acyclic=True):
     for i in range(n):
         mine = [x for x in inits if x[0] == i]
         res.append(("C16:init-exactly-once", len(mine) == 1, f"model {i} ({bench['models'][i]['name']}): init ran {len(mine)} time(s)"))
+        if mine and mine[0][3] is not None:
+            res.append(("C16:context-name-is-qualified", mine[0][3] == qualified_name(bench, i),
+                        f"model {i} sees the name {mine[0][3]!r} in its context, expected {qualified_name(bench, i)!r}"))
         if mine and initcmd:
             res.append(("C16:init-during-SimInit-init", initcmd[0][1] < mine[0][2] < initcmd[0][2], f"model {i}: init outside SimInit::init"))
         first = [h for h in handles if h["model"] == i]
@@ -304,6 +315,14 @@ def benches(tier):
                                init={"0": [["send", 0], ["send", 0]], "2": [["send", 0]]},
                                handlers={"0.0": [], "1.0": [], "2.0": [["send", 0]]}),
                     driver=[[1, 0]]))
+    # 8b. hierarchies: sub-models added while their parent is built (depth 2, an unnamed child), init scripts of
+    #     sub-models that send to models spawned later, messages that reach a sub-model before its init
+    out.append(dict(name="hierarchy-init", props=["C16", "C03", "C02"],
+                    bench=dict(models=[M("root"), dict(name="kid", cap=1, parent=0), dict(name="", cap=1, parent=1), M("other")],
+                               outputs={"1.0": [dict(to=3)], "3.0": [dict(to=2)]},
+                               init={"1": [["send", 0]]},
+                               handlers={"0.0": [], "1.0": [], "2.0": [], "3.0": [["send", 0]]}),
+                    driver=[[3, 0]]))
     # 9. queries: 0..3 repliers, filtered subsets, repliers that yield (arbitrary completion orders), a replier that sends
     for nrep in ((0, 2) if q else (0, 1, 2, 3)):
         reps = [dict(to=1 + r, kind=("filter" if r % 2 == 1 else "plain")) for r in range(nrep)]
